@@ -131,7 +131,7 @@ func TestC15_ConfigRewrite(t *testing.T) {
 	const id = "config-rewrite-not-atomic"
 	c := ev.New("C15", "configrewrite", "fault_enumeration")
 	t.Cleanup(c.Flush)
-	c.Rule("regression probes of finding " + id + " on a child-process server whose config file holds requirepass and read_only. (1) deterministic: the data directory is watched with inotify during a start, READONLY no/yes and CONFIG REWRITE: the existing config file must never be modified in place (any MODIFY/CLOSE_WRITE event on 'config' means it was truncated and rewritten, so a kill in between loses the gates) nor be seen with length 0; it may only be replaced by a rename. (2) fault enumeration: the server is started and SIGKILLed after 0-80 ms (evenly spread, drawn sub-millisecond jitter), 80 (thorough 300) times; after every kill the config file must be complete JSON that still holds requirepass and read_only. Non-trivial: kills (distinct by delay) and watched rewrites.")
+	c.Rule("regression probes of finding " + id + " on a child-process server whose config file holds requirepass and read_only. (1) deterministic: the data directory is watched with inotify during a start, READONLY no/yes and CONFIG REWRITE: the existing config file must never be modified in place (any MODIFY/CLOSE_WRITE event on 'config' means it was truncated and rewritten, so a kill in between loses the gates) nor be seen with length 0; it may only be replaced by a rename. (2) fault enumeration: the server is started and SIGKILLed after 0-80 ms (evenly spread, drawn sub-millisecond jitter), 50 (thorough 120) times; after every kill the config file must be complete JSON that still holds requirepass and read_only. Non-trivial: kills (distinct by delay) and watched rewrites.")
 	if t38.ServerBin() == "" {
 		c.Inconclusive("no server binary (VERIF_SERVER_BIN): probes need a child process")
 		return
@@ -207,7 +207,7 @@ func TestC15_ConfigRewrite(t *testing.T) {
 func killLoop(t *testing.T, c *ev.Collector, id string, newDir func() string) {
 	rapid.Check(t, func(rt *rapid.T) {
 		// delays spread evenly over 0-80 ms (rapid's integers favour small values), drawn jitter below 1 ms
-		n := ev.Pick(80, 300)
+		n := ev.Pick(50, 120)
 		jitter := rapid.SliceOfN(rapid.IntRange(0, 999), n, n).Draw(rt, "jitter_us")
 		delays := make([]int, n)
 		for i := range delays {
@@ -269,7 +269,7 @@ func TestC15_LeaderSwitch(t *testing.T) {
 	const id = "follower-leader-switch-serves-partial"
 	c := ev.New("C15", "leaderswitch", "exploration")
 	t.Cleanup(c.Flush)
-	nObjs := ev.Pick(60000, 150000)
+	nObjs := ev.Pick(60000, 80000)
 	c.Rule(fmt.Sprintf("regression probe of finding %s and gate mode 'follower switched to another leader': F follows A (small) and is caught up; FOLLOW B (B holds %d objects). From the acknowledgement on, segments 'HEALTHZ ; read ; HEALTHZ' are written on one connection, the read rotating over SCAN big COUNT, SCAN big LIMIT 1, GET, KEYS *, NEARBY, SERVER, TIMEOUT-wrapped SCAN, EVALRO get, EVALNA scan, HOOKS *, in RESP and JSON mode; whenever the second HEALTHZ still says not caught up the read must have been answered with an error. Repeated for a switch back. Non-trivial: reads sampled while not caught up (inconclusive if none); distinct by (read, reply class).", id, nObjs))
 	report := func(what string, replay any) {
 		if ev.KnownActive(id) {
